@@ -260,6 +260,7 @@ type innerStatic struct {
 }
 
 func (s *innerStatic) Value(ctx context.Context, t *dials.Type) (reflect.Value, error) {
+	simrt.Yield("inner.Value") // a real source reads something here: others run meanwhile
 	if s.fail {
 		return reflect.Value{}, errSourceValue
 	}
@@ -452,7 +453,7 @@ func (r *Run) spawn(c *ClientSpec) {
 			r.canceller(c)
 		case "stopper":
 			r.stopper(c)
-		case "blank":
+		case "blank", "blankdone":
 			r.blankClient(c)
 		case "mutator":
 			r.mutator(c)
@@ -785,6 +786,10 @@ func (r *Run) blankClient(c *ClientSpec) {
 		switch op.K {
 		case "sleep":
 			simrt.Sleep(time.Duration(op.D))
+		case "pause":
+			for n := 0; n < op.N; n++ {
+				simrt.Yield("pause")
+			}
 		case "setsource":
 			if op.Str == "retry" {
 				// the very same source object once more (typically after a failed attempt)
